@@ -349,6 +349,16 @@ func (vc *VC) evalConversion(s *State, call *ast.CallExpr, to types.Type) *Term 
 		s.assume(Not(Sel(r, "isnil")))
 		return r
 	case isSliceSort(fs) && ts == SStr:
+		if sl, ok := from.Underlying().(*types.Slice); ok {
+			if b, ok := sl.Elem().Underlying().(*types.Basic); ok && b.Kind() != types.Uint8 {
+				// string([]rune): UTF-8 encoding, a function of the runes in [0, len) (extensionality axiom in sorts.go);
+				// one to four bytes per rune
+				vc.prog.Assumed["string([]rune) is a function of the runes; its length is between len and 4*len"] = true
+				r := s.name("r2s", App("conv.runes2str", ts, sliceElems(v), sliceLen(v)))
+				s.assume(And(Le(sliceLen(v), strLen(r)), Le(strLen(r), op("*", SInt, IntLit(4), sliceLen(v)))))
+				return r
+			}
+		}
 		vc.prog.Assumed["string<->[]byte conversion preserves bytes (uninterpreted bijection)"] = true
 		r := s.name("b2s", App("conv.bytes2str", ts, sliceElems(v), sliceLen(v)))
 		s.assume(Eq(strLen(r), sliceLen(v)))
@@ -953,6 +963,9 @@ func (vc *VC) applySpecNoBody(s *State, call *ast.CallExpr, key string, spec *Fu
 		}
 	}
 	for _, e := range spec.Ensures {
+		if spec.Local[e] && (vc.fn == nil || vc.fn.Key != key) {
+			continue
+		}
 		s.assume(post.evalBool(e))
 	}
 	return res
